@@ -173,17 +173,24 @@ def _gen_build(r, g, class_default):
                 members = [('q', '!unsafe ' + _sv(g.tok('U'))), ('p', _sv(g.tok(t))), ('r', _sv(g.tok(t)))]
                 if r.random() < 0.3:
                     r.shuffle(members)
+                anchor = f'&anc{key} ' if r.random() < 0.4 else ''
                 if r.random() < 0.5:
-                    st['items'].append([key + 'b', '{' + ', '.join(f'{k}: {v}' for k, v in members) + '}'])
+                    st['items'].append([key + 'b', anchor + '{' + ', '.join(f'{k}: {v}' for k, v in members) + '}'])
                 else:
-                    st['items'].append([key + 'b', '[' + ', '.join(v for _, v in members) + ']'])
+                    st['items'].append([key + 'b', anchor + '[' + ', '.join(v for _, v in members) + ']'])
+                if anchor:
+                    # the same node object reachable under a second path (YAML alias); the consumer uses that path
+                    st['items'].append([key + 'c', f'*anc{key}'])
+                    key_b = key + 'c'
+                else:
+                    key_b = key + 'b'
                 c = r.randrange(3)
                 if c == 0:
-                    v = _call(g, t, r.choice(['call', 'bind']), args={'a': f'!xref {key}b'})
+                    v = _call(g, t, r.choice(['call', 'bind']), args={'a': f'!xref {key_b}'})
                 elif c == 1:
-                    v = '!eval ' + emit.scalar_text(f"rec('{g.tok(t)}', {key}b)")
+                    v = '!eval ' + emit.scalar_text(f"rec('{g.tok(t)}', {key_b})")
                 else:
-                    st['items'].append([key + 'a', f'!xref {key}b'])
+                    st['items'].append([key + 'a', f'!xref {key_b}'])
                     v = _call(g, t, 'call', args={'a': f'!xref {key}a'})
             elif fam == 'aynscfg':
                 own = g.tok(t)
@@ -256,7 +263,7 @@ def _gen_build(r, g, class_default):
     # materialise sources
     sources = []
     for si, st in enumerate(stages):
-        if r.random() < 0.6:
+        if r.random() < 0.6 and not any('&anc' in str(v) for _, v in st['items']):
             r.shuffle(st['items'])      # evaluation order follows key order: consumers before / after what they read
         # block style at the top level (implicit f-strings cannot be written inside a flow mapping)
         text = ''.join(f'{k}: {v}\n' for k, v in st['items']) if st['items'] else '{}\n'
